@@ -106,9 +106,9 @@ pub fn spec(id: &str) -> Option<PropSpec> {
             vec!["cur-blst", "ref (draft tags)"],
         )),
         "C04" => Some(base(
-            vec![cs(&IDENT, "family", 120, 1200, false), cs(&IDENT, "agg-positions", 240, 63 * 6 * 3 * 2, false)],
+            vec![cs(&IDENT, "family", 120, 1200, false), cs(&IDENT, "agg-positions", 240, 63 * 6 * 3 * 2, false), cs(&IDENT, "agg-positions-wide", 16, 28, true)],
             "cases = (entry point, which point-/scalar-typed argument is the identity / zero, with which companion values that make the pairing equation hold trivially, scheme, group) — about 90 cases per (scheme, group), enumerated completely in every `family` run (runs differ in message and key); \
-             `agg-positions` inserts an identity-key pair into a valid aggregate list at first / middle / last / random positions with its own, a neighbour's or another signer's message for n in 2..=64; all cases non-trivial",
+             `agg-positions` inserts an identity-key pair into a valid aggregate list at first / middle / last / random positions with its own, a neighbour's or another signer's message for n in 2..=64; `agg-positions-wide` puts it at index 254..257 (thorough: also 65 534..65 536) of a list of equal pairs; all cases non-trivial",
             vec!["cur-blst"],
         )),
         "C05" => Some(base(
